@@ -23,6 +23,14 @@ type lenTerm struct {
 	ctx int
 }
 
+// strTerm denotes the "code" of a string value: an integer that is K(k) when
+// the string equals the constant k (distinct constants have distinct codes).
+// Only equalities with constants are ever asserted about it.
+type strTerm struct {
+	v   ssa.Value
+	ctx int
+}
+
 // Prover collects linear facts about integer SSA values and lengths of
 // string/slice SSA values and decides entailment (see lin.go).
 type Prover struct {
@@ -39,6 +47,40 @@ type Prover struct {
 
 	lemmas    map[*ssa.Function][]lemmaT
 	lemmaBusy map[*ssa.Function]bool
+
+	strCodes map[string]int64
+}
+
+// strCode: the code of a string constant.
+func (p *Prover) strCode(k string) int64 {
+	if p.strCodes == nil {
+		p.strCodes = map[string]int64{}
+	}
+	if c, ok := p.strCodes[k]; ok {
+		return c
+	}
+	c := int64(len(p.strCodes) + 1)
+	p.strCodes[k] = c
+	return c
+}
+
+// sexpr: linear expression denoting the code of the string v.
+func (fc *factCtx) sexpr(v ssa.Value) Lin {
+	if s, ok := constString(v); ok {
+		return constLin(fc.p.strCode(s))
+	}
+	v = fc.p.rep(v)
+	t := strTerm{v, fc.ctxFor(v)}
+	id := fc.p.varOf(t, "code("+v.Name()+")")
+	if !fc.isDone(t) && fc.depth <= 18 {
+		fc.done[t] = true
+		if u, ok := v.(*ssa.UnOp); ok && u.Op == token.MUL {
+			if st := fc.p.reachingStore(u); st != nil && isStringType(st.Val.Type()) {
+				fc.eq(sub(newLin().add(id, 1), fc.sexpr(st.Val)))
+			}
+		}
+	}
+	return newLin().add(id, 1)
 }
 
 func (c *Ctx) NewProver() *Prover {
@@ -70,6 +112,7 @@ type factCtx struct {
 	hyp      map[*ssa.Phi][]invT    // during invariant inference: hypotheses for header phis
 	useHyp   bool
 	depth    int
+	nExec    int // facts added by executed()
 }
 
 func (p *Prover) newCtx() *factCtx {
@@ -729,6 +772,7 @@ func (fc *factCtx) summarise(callee *ssa.Function, call *ssa.Call, idx int, self
 		sc := fc.child()
 		sc.staleHdr = nil
 		sc.condsAt(rt.Block())
+		sc.executed(rt.Block(), rt)
 		rv := retVal(rt, idx)
 		if isLen {
 			sc.eq(sub(self, sc.lexpr(rv)))
@@ -1049,6 +1093,104 @@ func (fc *factCtx) condsAt(b *ssa.BasicBlock) {
 	for _, cd := range CondsAt(b) {
 		fc.cond(cd)
 	}
+	fc.joinConds(b)
+	for d := b.Idom(); d != nil; d = d.Idom() {
+		fc.executed(d, nil)
+	}
+}
+
+// executed adds what the index operations of block b that precede upto (all
+// of them when upto is nil) established by not panicking: 0 <= i < len(x).
+// Sound wherever b dominates the point the facts are used at: the operands
+// are SSA values, so they still denote what the operation saw.
+func (fc *factCtx) executed(b *ssa.BasicBlock, upto ssa.Instruction) {
+	if fc.nExec > 60 {
+		return
+	}
+	for _, in := range b.Instrs {
+		if in == upto {
+			return
+		}
+		var x, idx ssa.Value
+		switch t := in.(type) {
+		case *ssa.IndexAddr:
+			x, idx = t.X, t.Index
+		case *ssa.Index:
+			x, idx = t.X, t.Index
+		default:
+			continue
+		}
+		if !isIntType(idx.Type()) {
+			continue
+		}
+		var n Lin
+		if k, ok := arrayLen(x.Type()); ok {
+			n = constLin(k)
+		} else if hasLen(x.Type()) {
+			n = fc.lexpr(x)
+		} else {
+			continue
+		}
+		i := fc.iexpr(idx)
+		fc.le(leExpr(constLin(0), i))
+		fc.le(ltExpr(i, n))
+		fc.nExec++
+	}
+}
+
+// joinConds adds, for the blocks with several predecessors on the dominator
+// chain of b (the body of "case A, B:", the join of an ||), the disjunction of
+// what holds along each incoming edge since the immediate dominator.
+func (fc *factCtx) joinConds(b *ssa.BasicBlock) {
+	if fc.depth > 10 {
+		return
+	}
+	n := 0
+	for x := b; x != nil && n < 4; x = x.Idom() {
+		if len(x.Preds) < 2 || len(x.Preds) > 6 {
+			continue
+		}
+		d := x.Idom()
+		if d == nil {
+			continue
+		}
+		var cl Clause
+		ok := true
+		for _, p := range x.Preds {
+			var cds []Cond
+			if cd, okE := edgeCond(p, x); okE {
+				cds = append(cds, cd)
+			}
+			y := p
+			for steps := 0; y != d; steps++ {
+				if y == nil || len(y.Preds) != 1 || steps > 32 {
+					ok = false
+					break
+				}
+				if cd, okE := edgeCond(y.Preds[0], y); okE {
+					cds = append(cds, cd)
+				}
+				y = y.Preds[0]
+			}
+			if !ok || len(cds) == 0 {
+				ok = false
+				break
+			}
+			sc := fc.child()
+			for _, cd := range cds {
+				sc.cond(cd)
+			}
+			if len(sc.base) == 0 && len(sc.clauses) == 0 {
+				ok = false // nothing known on this edge: the disjunction says nothing
+				break
+			}
+			cl = append(cl, sc.flatten(6)...)
+		}
+		if ok && len(cl) >= 2 && len(cl) <= 24 {
+			fc.or(cl)
+			n++
+		}
+	}
 }
 
 func (fc *factCtx) cond(cd Cond) {
@@ -1107,6 +1249,7 @@ func (fc *factCtx) cond(cd Cond) {
 			switch op {
 			case token.EQL:
 				fc.eq(sub(l, constLin(int64(len(k)))))
+				fc.eq(sub(fc.sexpr(other), constLin(fc.p.strCode(k))))
 			case token.NEQ:
 				if k == "" {
 					fc.le(leExpr(constLin(1), l))
@@ -1304,6 +1447,9 @@ func (fc *factCtx) predicate(callee *ssa.Function, call *ssa.Call, want bool) {
 			if !same {
 				continue
 			}
+			if isStringType(u.Type()) {
+				fc.eq(sub(fc.sexpr(u), fc.sexpr(L)))
+			}
 			switch {
 			case hasLen(u.Type()):
 				fc.eq(sub(fc.lexpr(u), fc.lexpr(L)))
@@ -1322,6 +1468,7 @@ func (fc *factCtx) predicate(callee *ssa.Function, call *ssa.Call, want bool) {
 			sc := fc.child()
 			sc.staleHdr = nil
 			sc.condsAt(rt.Block())
+			sc.executed(rt.Block(), rt)
 			for _, cd := range path {
 				sc.cond(cd)
 			}
@@ -1423,6 +1570,7 @@ func (p *Prover) invariants(fn *ssa.Function) map[*ssa.Phi][]invT {
 					fc := p.newCtx()
 					fc.hyp, fc.useHyp = cand, true
 					fc.condsAt(pred)
+					fc.executed(pred, nil)
 					if cd, okc := edgeCond(pred, ph.Block()); okc {
 						fc.cond(cd)
 					}
@@ -1463,6 +1611,7 @@ type GoalFn func(fc *factCtx) []Lin // conjunction of goals, each l <= 0
 func (p *Prover) ProveAt(at ssa.Instruction, g GoalFn) (bool, string) {
 	fc := p.newCtx()
 	fc.condsAt(at.Block())
+	fc.executed(at.Block(), at)
 	goals := g(fc)
 	for _, goal := range goals {
 		if !fc.entails(goal) {
